@@ -51,9 +51,15 @@ int cmdGen(int argc, char** argv) {
 	};
 	std::vector<Case> cases;
 	for (size_t ti = 0; ti < types.size(); ti++) {
-		if (stride > 1 && ti % stride != offset % stride) continue;
-		for (auto& kv : synthVersions())
-			for (int m = 0; m < 3; m++) cases.push_back({types[ti], kv.first, m});
+		// every (type, version) pair is always covered: with a stride, the types off the stride get one rotating
+		// population mode instead of all three (a version gate off by one shows in whichever mode populates the field)
+		bool full = stride <= 1 || ti % stride == offset % stride;
+		size_t vi = 0;
+		for (auto& kv : synthVersions()) {
+			for (int m = 0; m < 3; m++)
+				if (full || m == int((ti + vi + offset) % 3)) cases.push_back({types[ti], kv.first, m});
+			vi++;
+		}
 	}
 	std::string log = dir + "/gen.log";
 	{ Out trunc(log); }
